@@ -82,3 +82,43 @@ def numeric_cross(doc, cap=24):
 
 def nesting(open_b, close_b, depth, inner=b""):
     return open_b * depth + inner + close_b * depth
+
+
+def repetitions(doc, sizes=(9000, 60000), seps=(b",", b"&", b";", b"/")):
+    """'repetition bombs': one structural unit of the document (a line, the record between two occurrences of the first
+    line, an element between separators, the whole document) repeated until the result is about `size` bytes long.
+    Deterministic. Aimed at recursion / stack depth / quadratic work proportional to the number of units."""
+    out = []
+    lines = doc.splitlines(keepends=True)
+    seen = set()
+    for size in sizes:
+        for i, ln in enumerate(lines[:10]):
+            if (ln, size) in seen or not ln:
+                continue
+            seen.add((ln, size))
+            n = max(2, size // len(ln))
+            out.append(("repeat-line:%d" % size, b"".join(lines[:i]) + ln * n + b"".join(lines[i + 1:])))
+        if len(lines) > 2:
+            # the record that starts with the first line and ends before the next line that begins the same way
+            key = lines[0].rstrip(b"\r\n")
+            j = next((k for k in range(1, len(lines)) if key and lines[k].startswith(key)), None)
+            if j and j > 1:
+                rec = b"".join(lines[:j])
+                n = max(2, size // len(rec))
+                out.append(("repeat-record:%d" % size, rec * n + b"".join(lines[j:])))
+                # the smallest record of the same shape: first line, one short line, blank line, blank line
+                nl = b"\r\n" if lines[0].endswith(b"\r\n") else b"\n"
+                small = lines[0] + b"A: b" + nl + nl + nl
+                out.append(("repeat-min-record:%d" % size, small * max(2, size // len(small)) + b"".join(lines[j:])))
+                tiny = lines[0].rstrip(b"\r\n") + b"\n" + b"A: b\n\n\n"
+                out.append(("repeat-min-record-lf:%d" % size, tiny * max(2, size // len(tiny)) + b"".join(lines[j:])))
+        for sep in seps:
+            parts = doc.split(sep)
+            if 1 < len(parts) < 200:
+                k = len(parts) // 2
+                el = parts[k] if parts[k] else b"x"
+                n = max(2, size // (len(el) + len(sep)))
+                out.append(("repeat-element:%d" % size, sep.join(parts[:k] + [el] * n + parts[k:])))
+        if doc:
+            out.append(("repeat-document:%d" % size, doc * max(2, size // len(doc))))
+    return out
